@@ -3750,11 +3750,14 @@ func convertConstantValue(n *node) {
 	case constant.String:
 		v = reflect.ValueOf(constant.StringVal(c))
 	case constant.Int:
-		i, x := constant.Int64Val(c)
-		if !x {
+		if i, x := constant.Int64Val(c); x {
+			v = reflect.ValueOf(int(i))
+		} else if u, x := constant.Uint64Val(c); x {
+			// An unsigned constant above MaxInt64.
+			v = reflect.ValueOf(u)
+		} else {
 			panic(n.cfgErrorf("constant %s overflows int64", c.ExactString()))
 		}
-		v = reflect.ValueOf(int(i))
 	case constant.Float:
 		f, _ := constant.Float64Val(c)
 		v = reflect.ValueOf(f)
